@@ -351,6 +351,14 @@ pub(crate) fn parse_unknown_ifdata_start(
     parser: &mut ParserState,
     context: &ParseContext,
 ) -> Result<GenericIfData, ParserError> {
+    // comments are not stored: skip them here, so that the data has the same structure when the written file is loaded again
+    while let Some(A2lToken {
+        ttype: A2lTokenType::Comment,
+        ..
+    }) = parser.peek_token()
+    {
+        parser.get_token(context)?;
+    }
     let token_peek = parser.peek_token();
     // by convention, the elements inside of IF_DATA are wrapped in a taggedunion
     if let Some(A2lToken {
